@@ -1,12 +1,20 @@
 #!/bin/bash
 # seeds.sh [id...] : sensitivity regression — re-runs every kept seeded change
 # (or the named ones) against the checks recorded as catching it, and writes
-# seeded/RESULTS.md. VERIF_HOME=<copy of /verif> runs it from a snapshot. A seed counts as caught if at least one check exits 1.
+# seeded/RESULTS.md. Two stages per seed: the recorded checks with a
+# ${STAGE1_S:-25}-second search budget each; only if none of them reports a
+# violation, the full quick tier. The seed itself (suite passes with it, demo
+# fails with it) was confirmed when it was kept and is not re-confirmed here
+# (CONFIRM=1 to do so). A seed counts as caught if at least one check exits 1.
+# VERIF_HOME=<copy of /verif> runs it from a snapshot.
 H=${VERIF_HOME:-/verif}
 cd $H
 ids="$@"; [ -z "$ids" ] && ids=$(ls seeded | grep -v RESULTS)
 out=seeded/RESULTS.md
+skip=1; [ -n "${CONFIRM:-}" ] && skip=""
 echo "# Seeded-change regression ($(date -u +%Y-%m-%dT%H:%MZ), /verif @ $(git rev-parse --short HEAD))" > $out.tmp
+echo >> $out.tmp
+echo "Stage 1: each recorded check with a ${STAGE1_S:-25} s search budget; stage 2 (only after a stage-1 miss): the full quick tier." >> $out.tmp
 echo >> $out.tmp; echo "| seed | checks run | result |" >> $out.tmp; echo "|---|---|---|" >> $out.tmp
 for id in $ids; do
   [ -f seeded/$id/meta.json ] || continue
@@ -14,11 +22,21 @@ for id in $ids; do
 import json
 m=json.load(open('seeded/$id/meta.json'))
 print(' '.join(sorted(set(c.split()[0] for c in m['caught_by']))))")
-  res=$(tools/tryseed.sh $H/seeded/$id reg$id $checks 2>&1)
-  ok=$(echo "$res" | grep -c "(ok)")
+  if [ "$checks" = "MISSED" ]; then
+    echo "| $id | - | not caught (recorded as such; see meta.json) |" >> $out.tmp; echo "$id recorded-miss"; continue
+  fi
+  stage=1
+  res=$(SKIP_CONFIRM=$skip VERIF_BUDGET_S=${STAGE1_S:-25} tools/tryseed.sh $H/seeded/$id reg$id $checks 2>&1)
   caught=$(echo "$res" | grep "^check" | grep -c "exit=1")
+  if [ "$caught" -lt 1 ]; then
+    stage=2
+    res=$(SKIP_CONFIRM=$skip tools/tryseed.sh $H/seeded/$id reg$id $checks 2>&1)
+    caught=$(echo "$res" | grep "^check" | grep -c "exit=1")
+  fi
   line=$(echo "$res" | grep "^check" | sed 's/violation class=//' | cut -c1-110 | tr '\n' ';' | tr '|' '/')
-  status="MISSED"; [ "$caught" -ge 1 ] && status="caught"; [ "$ok" -lt 3 ] && status="$status (seed no longer valid: $ok/3)"
+  status="MISSED"; [ "$caught" -ge 1 ] && status="caught (stage $stage)"
+  echo "$res" | grep -q "patch does not apply" && status="patch no longer applies"
+  echo "$res" | grep -q "bad seed" && status="$status (seed no longer valid)"
   echo "| $id | $checks | $status: $line |" >> $out.tmp
   echo "$id $status"
 done
